@@ -5,7 +5,8 @@ From Boltons Require Import Lib.Prelude Lib.C07_Str Spec.C07_Spec Gen.C07_Gen Mo
      Proofs.C07_Text Proofs.C07_RfcExamples Gen.C07_Src Proofs.C07_SrcEq Check.C07_Check
      Proofs.C07_Refine Proofs.C07_RoundTrip Proofs.C07_Unrooted Proofs.C07_Case
      Proofs.C07_RefineUnrooted Proofs.C07_CaseAuth Proofs.C07_CaseRefine Proofs.C07_EmptyAuth
-     Proofs.C07_CaseRoundTrip Proofs.C07_EmptyAuthRefine Proofs.C07_EmptyAuthText.
+     Proofs.C07_CaseRoundTrip Proofs.C07_EmptyAuthRefine Proofs.C07_EmptyAuthText
+     Proofs.C07_CaseUnrooted.
 Open Scope N_scope.
 Open Scope list_scope.
 
@@ -263,11 +264,11 @@ Proof. exact ex_default_port. Qed.
 Theorem C07_round_trip_base_mixed_case : forall b, wf_base_mc_text b -> url_of_text (to_text b) = Some b.
 Proof. exact base_round_trip_mc. Qed.
 Print Assumptions C07_round_trip_base_mixed_case.
-Theorem C07_refinement_mixed_case : forall b d1 d2 f1 f2 o0,
+Theorem C07_refinement_mixed_case : forall b d1 d2 unrooted f1 f2 o0,
   wf_base_mc_text b -> dest_text_ok d1 -> dest_text_ok d2 ->
-  exists o, c07_model (mkCase (to_text b) false (to_text d1) f1 (to_text d2) f2 o0) = Some o /\
-            c07_holds (mkCase (to_text b) false (to_text d1) f1 (to_text d2) f2 o) = true.
-Proof. exact model_on_texts_mixed_case. Qed.
+  exists o, c07_model (mkCase (to_text b) unrooted (to_text d1) f1 (to_text d2) f2 o0) = Some o /\
+            c07_holds (mkCase (to_text b) unrooted (to_text d1) f1 (to_text d2) f2 o) = true.
+Proof. exact model_on_texts_mixed_case_any_base. Qed.
 Print Assumptions C07_refinement_mixed_case.
 Example C07_refinement_mixed_case_ex :
   wf_base_mc_text ex_mixed /\ u_host ex_mixed = codes "Example.COM".
